@@ -24,6 +24,7 @@ Definition C19_statement (dist : lat_lon -> lat_lon -> ratio) : Prop :=
   filters <> [] -> Permutation filters filters' ->
   map decode stream = map Ok xs ->
   forallb coords_numeric xs = true ->
+  forallb attr_reads_total xs = true ->
   user_functions_total filters xs ->
   let out := conj_filter dist (map criterion_of filters) xs in
   chain_total dist filters xs /\
@@ -57,13 +58,15 @@ Print Assumptions C19_chain_perm.
 
 (* no decodable message makes a built-in filter raise: every message shape, coordinates None included *)
 Theorem C19_no_raise :
-  forall dist f m, builtin f = true -> coords_numeric m = true -> exists b, filter_keep dist f m = Ok b.
+  forall dist f m, builtin f = true -> coords_numeric m = true -> attr_reads_total m = true ->
+  exists b, filter_keep dist f m = Ok b.
 Proof. exact no_raise. Qed.
 Print Assumptions C19_no_raise.
 
 (* a chain of built-in filters never raises on decoded messages *)
 Theorem C19_builtin_chain_total :
-  forall dist fs xs, forallb builtin fs = true -> forallb coords_numeric xs = true -> chain_total dist fs xs.
+  forall dist fs xs, forallb builtin fs = true -> forallb coords_numeric xs = true -> forallb attr_reads_total xs = true ->
+  chain_total dist fs xs.
 Proof. exact builtin_chain_total. Qed.
 Print Assumptions C19_builtin_chain_total.
 
@@ -122,9 +125,9 @@ Definition ex_dist (p q : lat_lon) : ratio :=           (* any function will do;
   mkRatio (Z.abs (ratio_num (fst p) - ratio_num (fst q)) + Z.abs (ratio_num (snd p) - ratio_num (snd q))) 1.
 Definition q (z : Z) : ratio := ratio_of_Z z.
 Definition ex_msg (t : Z) (lat lon : option aval) (speed : aval) : pymsg :=
-  mkPyMsg t (("msg_type"%string, ANum (q t)) :: ("speed"%string, speed) ::
-           (match lon with Some v => [("lon"%string, v)] | None => [] end) ++
-           (match lat with Some v => [("lat"%string, v)] | None => [] end)).
+  mkPyMsg t (("msg_type"%string, Ok (ANum (q t))) :: ("speed"%string, Ok speed) ::
+           (match lon with Some v => [("lon"%string, Ok v)] | None => [] end) ++
+           (match lat with Some v => [("lat"%string, Ok v)] | None => [] end)).
 Definition ex_msgs : list pymsg :=
   [ ex_msg 1 (Some (ANum (q 5))) (Some (ANum (q 5))) (ANum (q 3));     (* inside everything *)
     ex_msg 1 (Some ANone) (Some ANone) (ANum (q 3));                   (* truncated: no position, passes geo *)
@@ -141,6 +144,7 @@ Definition ex_chain : list filter_cfg :=
 
 Example C19_nonvacuous :
   ex_chain <> [] /\ map (@Ok pymsg) ex_msgs = map Ok ex_msgs /\ forallb coords_numeric ex_msgs = true /\
+  forallb attr_reads_total ex_msgs = true /\
   user_functions_total ex_chain ex_msgs /\
   bind (filter_chain_run ex_dist ex_chain (@Ok pymsg) ex_msgs) mgen_list
   = Ok [nth 0 ex_msgs truncated_report; nth 1 ex_msgs truncated_report; nth 3 ex_msgs truncated_report;
@@ -148,9 +152,10 @@ Example C19_nonvacuous :
   bind (filter_chain_run ex_dist (rev ex_chain) (@Ok pymsg) ex_msgs) mgen_list
   = bind (filter_chain_run ex_dist ex_chain (@Ok pymsg) ex_msgs) mgen_list.
 Proof.
-  split; [discriminate|]. split; [reflexivity|]. split; [vm_compute; reflexivity|]. split.
+  split; [discriminate|]. split; [reflexivity|]. split; [vm_compute; reflexivity|]. split; [vm_compute; reflexivity|]. split.
   - intros m Hm ff Hf. unfold ex_chain in Hf. simpl in Hf.
     repeat (destruct Hf as [Hf|Hf]; [try discriminate|]); [|contradiction].
-    injection Hf as <-. eexists. reflexivity.
+    injection Hf as <-. unfold ex_msgs in Hm. simpl in Hm.
+    repeat (destruct Hm as [<-|Hm]; [eexists; vm_compute; reflexivity|]). contradiction.
   - split; vm_compute; reflexivity.
 Qed.
